@@ -1,4 +1,6 @@
-use std::{cell::Cell, collections::BTreeMap, rc::Rc};
+use std::{cell::Cell, rc::Rc};
+
+use indexmap::IndexMap;
 
 use crate::common::{Identifier, ListSeparator};
 
@@ -9,7 +11,7 @@ pub struct ArgList {
     pub elems: Vec<Value>,
     were_keywords_accessed: Rc<Cell<bool>>,
     // todo: special wrapper around this field to avoid having to make it private?
-    keywords: BTreeMap<Identifier, Value>,
+    keywords: IndexMap<Identifier, Value>,
     pub separator: ListSeparator,
 }
 
@@ -27,7 +29,7 @@ impl ArgList {
     pub fn new(
         elems: Vec<Value>,
         were_keywords_accessed: Rc<Cell<bool>>,
-        keywords: BTreeMap<Identifier, Value>,
+        keywords: IndexMap<Identifier, Value>,
         separator: ListSeparator,
     ) -> Self {
         debug_assert!(
@@ -55,12 +57,12 @@ impl ArgList {
         !self.is_empty() && (self.elems.iter().all(Value::is_blank))
     }
 
-    pub fn keywords(&self) -> &BTreeMap<Identifier, Value> {
+    pub fn keywords(&self) -> &IndexMap<Identifier, Value> {
         (*self.were_keywords_accessed).set(true);
         &self.keywords
     }
 
-    pub fn into_keywords(self) -> BTreeMap<Identifier, Value> {
+    pub fn into_keywords(self) -> IndexMap<Identifier, Value> {
         (*self.were_keywords_accessed).set(true);
         self.keywords
     }
